@@ -514,6 +514,12 @@ class World:
                 theirs = A.term_arrays(o.obj)
             for an, a in mine:
                 for bn, b in theirs:
+                    if an.startswith("cache.") and bn.startswith("cache."):
+                        # two variables holding the same cached boundary system
+                        # (e.g. a cache kept once per BC object) is an internal
+                        # choice no user-visible array takes part in; whether it is
+                        # coherent is judged by the shadow solves
+                        continue
                     if shares(a, b):
                         fam = self._family(e)
                         sig = "%s/%s/%s" % (k + self._opsub(ctx.op), fam,
